@@ -189,3 +189,8 @@ pub mod task {
 pub mod pool {
     pub use crate::executor::verif_pool::*;
 }
+
+/// Façade over the mailbox channel (V1).
+pub mod channel {
+    pub use crate::channel::verif_channel::*;
+}
